@@ -25,6 +25,7 @@ class Profile:
         self.type_errors = 0.03    # probability of deliberately ill-typed operand
         self.max_depth = 3
         self.stmts = (3, 8)
+        self.scope_faults = 0.0    # weight of statements that probe block scoping (dead names, shadowing, constants)
         self.__dict__.update(kw)
 
 
@@ -41,6 +42,7 @@ class Gen:
         self.in_loop = 0
         self.in_method = None
         self.counter = 0
+        self.dead = []              # names whose block has ended
 
     # ------------------------------------------------------------ helpers
     def fresh(self, pool=VAR_NAMES):
@@ -176,7 +178,10 @@ class Gen:
             out.extend(self.stmt(d))
         if self.rng.random() < self.p.markers:
             out.append(self.mark())
-        self.scopes.pop()
+        gone = self.scopes.pop()
+        for n in gone:
+            if self.type_of(n) is None:
+                self.dead.append(n)
         return out
 
     def stmt(self, d):
@@ -194,6 +199,8 @@ class Gen:
         if self.classes:
             choices += [("obj", 1.5 * p.classes)]
         choices += [("throw", 0.4 * p.exceptions), ("fault", 0.3 * p.exceptions)]
+        if p.scope_faults:
+            choices += [("scope", p.scope_faults)]
         tot = sum(w for _, w in choices)
         x = rng.random() * tot
         kind = choices[-1][0]
@@ -234,6 +241,68 @@ class Gen:
         c = self.rng.random() < 0.15
         self.declare(n, t if not c else "const:" + t)
         return [Decl([(c, [n], e)])]
+
+    def s_scope(self, d):
+        """statements that probe block scoping and constness (C06)"""
+        rng = self.rng
+        live = self.vars_of()
+        dead = [n for n in self.dead if self.type_of(n) is None]
+        kinds = ["shadow", "shadow", "yield"]
+        if dead:
+            kinds += ["dead-read", "dead-assign", "dead-redeclare"]
+        consts = [n for n in live if self.type_of(n).startswith("const:")]
+        if consts:
+            kinds += ["const-assign", "const-shadow"]
+        if self.funcs:
+            kinds += ["def-assign"]
+        k = rng.choice(kinds)
+        if k == "dead-read":
+            return [Display(Var(rng.choice(dead)))]
+        if k == "dead-assign":
+            return [ExprS(AssignVar(rng.choice(dead), self.num_lit()))]
+        if k == "dead-redeclare":
+            n = rng.choice(dead)
+            self.declare(n, "num")
+            return [Decl([(False, [n], self.num_lit())]), Display(Var(n))]
+        if k == "const-assign":
+            n = rng.choice(consts)
+            return [ExprS(AssignVar(n, self.num_lit())), Display(Var(n))]
+        if k == "def-assign":
+            return [ExprS(AssignVar(rng.choice(sorted(self.funcs)), self.num_lit()))]
+        if k == "yield":
+            if not self.funcs:
+                k = "shadow"
+            else:
+                f = rng.choice(sorted(self.funcs))
+                r = self.fresh()
+                out = [ExprS(Call(f, [self.expr("num", d + 1) for _ in range(self.funcs[f])], r))]
+                self.declare(r, "const:any")
+                if rng.random() < 0.5:
+                    out.append(ExprS(AssignVar(r, self.num_lit())))
+                return out
+        # shadowing: an inner block redeclares an outer name (constant or not), changes it, and the outer one is read again
+        if not live:
+            return self.s_decl(d)
+        n = rng.choice(consts if (k == "const-shadow" and consts) else live)
+        inner = [Decl([(rng.random() < 0.2, [n], self.num_lit())]), Display(Var(n))]
+        if rng.random() < 0.5:
+            inner.append(ExprS(AssignVar(n, self.num_lit())))
+            inner.append(Display(Var(n)))
+        extra = self.fresh()
+        inner.append(Decl([(False, [extra], self.num_lit())]))
+        self.dead.append(extra)
+        wrapper = rng.choice(["if", "while", "iter"])
+        if wrapper == "if":
+            st = Branch(Logic("eq", Num(1), Num(1)), inner)
+        elif wrapper == "while":
+            g = self.fresh()
+            self.declare(g, "num")
+            st0 = Decl([(False, [g], Num(0))])
+            st = While(Logic("lt", Var(g), Num(2)), [ExprS(AssignVar(g, Arith("+", Var(g), Num(1))))] + inner)
+            return [st0, st, Display(Var(n))]
+        else:
+            st = Iter(Arr([Num(1), Num(2)]), [], inner)
+        return [st, Display(Var(n))]
 
     def s_assign(self, d):
         vs = self.vars_of()
@@ -462,6 +531,18 @@ class Gen:
         body += self.block(1)
         if self.rng.random() < 0.7:
             body.append(Return(self.expr(self.rng.choice(["num", "num", "str", "list"]), 1)))
+        # local definitions: a method defined inside the body (hoisted in the body's scope, gone when it ends);
+        # now and then the body consists of such a definition only (its value is 空)
+        x = self.rng.random()
+        if x < 0.12:
+            inner = "Fi" + self.rng.choice("xyz")
+            idef = Func(inner, [], [Return(Num(self.rng.randrange(300, 400)))], [])
+            if x < 0.05:
+                body = [idef]
+            elif x < 0.09:
+                body = [idef, Return(Call(inner, []))]
+            else:
+                body.insert(self.rng.randrange(0, len(body) + 1), idef)
         cs = self.catches(1)
         if not body:
             body.append(ExprS(Var("空")))
